@@ -5,6 +5,7 @@
   e2.py <C02|C03|C10|C14> --tier quick|thorough --out FILE [--replay FILE]
 """
 import json
+import re
 import os
 import sys
 import time
@@ -213,6 +214,20 @@ def union_protocol_docs(model, t):
     return out
 
 
+_STRING_TOKEN = re.compile(r'"((?:[^"\\]|\\.)*)"(\s*:)?')
+
+
+def _escape_string_values(text):
+    """the same JSON document with the first character of every non-empty string *value* (not
+    member names) spelled as a \\uXXXX escape"""
+    def sub(m):
+        body, colon = m.group(1), m.group(2)
+        if colon or not body or body[0] == "\\" or ord(body[0]) > 0x7e:
+            return m.group(0)
+        return '"\\u%04x%s"' % (ord(body[0]), body[1:])
+    return _STRING_TOKEN.sub(sub, text)
+
+
 def run_c02(args, rep):
     tb = TypesBuild(args.tier, rep)
     if not tb.build():
@@ -231,6 +246,13 @@ def run_c02(args, rep):
                 valid.append(d)
         cases = [(M.dumps(d), True, d, "valid") for d in valid]
         seen = set(c[0] for c in cases)
+        # the same documents with the first character of every string value written as an escape
+        # (a deserializer cannot borrow such a string from its input)
+        for d in valid:
+            esc = _escape_string_values(M.dumps(d))
+            if esc not in seen:
+                seen.add(esc)
+                cases.append((esc, True, d, "valid (escaped spelling)"))
         for d in valid[:3]:
             for bad, desc in model.faults(t, d):
                 text = M.dumps(bad)
